@@ -596,6 +596,10 @@ func (ex *explorer) process(in *Interp, p *pstate) (res procResult) {
 					Witness: p.witness() + inb + w, XState: m.StateString(p.x), YState: p.y.String()})
 				continue
 			}
+			if m.in.mirror && mayBeBig(p.y.S) && inNumber(ys.Next.S) && !o.Mirrored && !bigBufEmptyDecided(o.Decisions) {
+				report(Disagreement{Kind: "big-unmirrored", Mode: mode, Byte: byteDesc(b), Detail: "inside a number this byte is neither added to the number's text buffer (BigBuf) nor handled on a path that tested the buffer to be empty: when the number is being kept as text (too many digits for the accumulators) the byte is lost from the value",
+					Witness: p.witness() + inb, XState: m.StateString(p.x), YState: p.y.String()})
+			}
 			xe := ex.xEvents(o.Events)
 			for _, y := range ysets {
 				ye := ex.yEvents(y.events)
@@ -691,6 +695,9 @@ func dedupeOutcomes(m *Machine, outs []Outcome) []Outcome {
 		if len(o.Decisions) > 0 {
 			sb.WriteString("|dec" + strings.Join(o.Decisions, ","))
 		}
+		if o.Mirrored {
+			sb.WriteString("|mir")
+		}
 		if o.Peek != nil {
 			sb.WriteString("|peek")
 			for b := 0; b < 256; b++ {
@@ -712,4 +719,44 @@ func dedupeOutcomes(m *Machine, outs []Outcome) []Outcome {
 		res = append(res, o)
 	}
 	return res
+}
+
+// mayBeBig: the text buffer can only be in use after digits were accumulated: not directly after
+// the minus sign or a leading zero.
+func mayBeBig(s rstate) bool {
+	switch s {
+	case rInt, rDot, rFrac, rE, rESign, rExp:
+		return true
+	}
+	return false
+}
+
+func inNumber(s rstate) bool {
+	switch s {
+	case rNeg, rZero, rInt, rDot, rFrac, rE, rESign, rExp:
+		return true
+	}
+	return false
+}
+
+// bigBufEmptyDecided: the path took the "text buffer is empty" branch of a test of its length.
+func bigBufEmptyDecided(dec []string) bool {
+	for _, d := range dec {
+		if !strings.Contains(d, "BigBuf") {
+			continue
+		}
+		i := strings.LastIndexByte(d, '=')
+		cond, val := strings.ReplaceAll(d[:i], " ", ""), d[i+1:]
+		switch {
+		case strings.HasPrefix(cond, "0<len(") && val == "0":
+			return true
+		case strings.HasSuffix(cond, ")>0") && strings.HasPrefix(cond, "len(") && val == "0":
+			return true
+		case strings.HasSuffix(cond, ")==0") && strings.HasPrefix(cond, "len(") && val == "1":
+			return true
+		case strings.HasSuffix(cond, ")!=0") && strings.HasPrefix(cond, "len(") && val == "0":
+			return true
+		}
+	}
+	return false
 }
